@@ -165,6 +165,18 @@ ThenLate(sc) ==
     /\ UNCHANGED <<kind, fin, stored, cont, selfCap, ctx, runs, got, pRefs, tRefs, thenDone, finVal, due>>
     /\ Settle
 
+\* A second then() on a family that is NOT finished yet replaces the registered continuation and the
+\* context it was registered with (documented: a task has one continuation, the last one attached).
+\* The new continuation comes with a context object of its own, alive at that moment; the replaced
+\* continuation is released and never runs; what happens to the OLD context object afterwards
+\* (old = "destroy": the harness deletes it right after the call) no longer matters.
+ThenReplace(sc, old) ==
+    /\ tRefs >= 1 /\ thenDone /\ ~fin /\ cont
+    /\ ctx' = "alive" /\ selfCap' = sc /\ due' = FALSE
+    /\ Log([a |-> "ThenReplace", sc |-> sc, old |-> old])
+    /\ UNCHANGED <<kind, fin, stored, cont, runs, got, pRefs, tRefs, thenDone, finVal>>
+    /\ Settle
+
 (* --- QXmppPromise::finish ------------------------------------------------ *)
 Finish(v, b) ==
     /\ pRefs >= 1 /\ ~fin /\ v \in Vals(kind)
@@ -193,6 +205,7 @@ Next ==
     \/ CopyPromise \/ MakeTask \/ DropPromise \/ DropTask \/ DestroyCtx \/ DropAll
     \/ \E b \in Bodies : \E sc \in BOOLEAN : Then(b, sc)
     \/ \E sc \in BOOLEAN : ThenLate(sc)
+    \/ \E sc \in BOOLEAN : \E old \in {"keep", "destroy"} : ThenReplace(sc, old)
     \/ \E b \in Bodies : \E v \in Vals(kind) : Finish(v, b)
 
 Spec == Init /\ [][Next]_vars
